@@ -395,90 +395,6 @@ func auditValid6(r *rep, c *g6codec, s string, n int, want [][]bool, us []int64)
 			if d, ok := g.(graph.Directed); ok {
 				to := d.To(u)
 				if to == nil {
-					r.Failf("null graph %s: To(%d) is nil", hexs(s), u)
-				} else if to.Len() != 0 || to.Next() {
-					r.Failf("null graph %s: To(%d) not empty", hexs(s), u)
-				}
-			}
-			for v := int64(-1); v <= 2; v++ {
-				if g.HasEdgeBetween(u, v) || g.Edge(u, v) != nil {
-					r.Failf("null graph %s has edge %d,%d", hexs(s), u, v)
-				}
-				if d, ok := g.(graph.Directed); ok && d.HasEdgeFromTo(u, v) {
-					r.Failf("null graph %s has edge %d->%d", hexs(s), u, v)
-				}
-				if ug, ok := g.(graph.Undirected); ok && ug.EdgeBetween(u, v) != nil {
-					r.Failf("null graph %s has edge between %d,%d", hexs(s), u, v)
-				}
-			}
-		}
-	}); p != "" {
-		r.Failf("query on invalid (null) %s %s panicked: %s", c.name, hexs(s), p)
-	}
-	if p := catch(func() { _ = c.goString(s) }); p != "" {
-		r.finding("g6-gostring-invalid-panics", c.name, "%s.Graph(%s).GoString() panics on an invalid encoding (documented to behave as the null graph): %s", c.name, q(s), p)
-	}
-}
-
-// auditValid6 checks every query of g against the adjacency want on ids
-// -1..n. us restricts the source ids examined (nil: all).
-func auditValid6(r *rep, c *g6codec, s string, n int, want [][]bool, us []int64) {
-	g := c.mk(s)
-	in := func(u int64) bool { return u >= 0 && u < int64(n) }
-	edge := func(u, v int64) bool { return in(u) && in(v) && u != v && want[u][v] }
-	if p := catch(func() {
-		all := make([]int64, n)
-		for i := range all {
-			all[i] = int64(i)
-		}
-		iterProtocol(r, "Nodes()", g.Nodes(), all)
-	}); p != "" {
-		r.Failf("Nodes() of valid %s panicked: %s", hexs(clip(s, 40)), p)
-		return
-	}
-	if us == nil {
-		for u := int64(-1); u <= int64(n); u++ {
-			us = append(us, u)
-		}
-	}
-	for _, u := range us {
-		u := u
-		if p := catch(func() {
-			nd := g.Node(u)
-			if (nd != nil) != in(u) {
-				r.Failf("Node(%d) presence wrong (n=%d)", u, n)
-			} else if nd != nil && nd.ID() != u {
-				r.Failf("Node(%d).ID()=%d", u, nd.ID())
-			}
-			// From
-			var wantFrom, wantTo []int64
-			for v := int64(0); v < int64(n); v++ {
-				if edge(u, v) {
-					wantFrom = append(wantFrom, v)
-				}
-				if edge(v, u) {
-					wantTo = append(wantTo, v)
-				}
-			}
-			f := g.From(u)
-			switch {
-			case f == nil && !in(u):
-				r.finding("graph6-from-nil", c.name, "%s.Graph(%s) is valid with %d nodes, From(%d) returns a nil graph.Nodes; graph.Graph requires \"From must not return nil\"", c.name, q(clip(s, 24)), n, u)
-			case f == nil:
-				r.Failf("From(%d) is nil for a node of the graph", u)
-			default:
-				got, ok := collectNodes(r, fmt.Sprintf("From(%d)", u), f)
-				if ok && !sameIDSet(got, wantFrom) {
-					r.Failf("From(%d)=%v want %v", u, got, wantFrom)
-				}
-				f.Reset()
-				if f.Len() != len(wantFrom) {
-					r.Failf("From(%d) after Reset: Len()=%d want %d", u, f.Len(), len(wantFrom))
-				}
-			}
-			if d, ok := g.(graph.Directed); ok {
-				to := d.To(u)
-				if to == nil {
 					r.Failf("To(%d) is nil", u)
 				} else {
 					iterProtocol(r, fmt.Sprintf("To(%d)", u), to, wantTo)
